@@ -29,7 +29,8 @@ META = dict(
     trusted_base=['reward identities on every block-counting state + multilinearity of the Van Loan moment (Lean)',
                   'scipy.linalg.expm / IEEE doubles on both sides of every identity'],
     assumptions=['tolerance 1e-9 of the raw-moment scale (means: the total branch length / n x tree height; second '
-                 'order: E[TBL^2]); only the non-stiff regime (no PhaseGen warning logged) is compared'],
+                 'order: E[TBL^2]); only the non-stiff regime is compared: no PhaseGen warning logged and horizon <= 2000 '
+                 'mean tree heights (p2util.ill_scaled: beyond that the implementation silently loses digits)'],
 )
 
 REL = 1e-9
@@ -79,6 +80,10 @@ def evaluate(ctx, pg, cfg, rng, probe=True):
         ctx.case(dict(cfg=cfg, error=g.error), None)
         ctx.violation('C11:exception', cfg=cfg, error=g.error, trace=g.trace,
                       note='evaluating the statistics of identities (a)-(d) raised although no warning was logged')
+        return
+    if U.ill_scaled(v['T'], v['th.mean']):
+        ctx.count('ill-scaled-horizon')
+        ctx.skipped += 1
         return
     with U.Guard() as g:
         # (e) block-counting side, route A: Coalescent.moment chooses the state space from the reward support
